@@ -314,6 +314,39 @@ func c20(r *Report) {
 	})
 
 	r.Guard("C20.R4", "status discipline: 416 before any body is attached, 206 with Content-Range, one part per range, the multipart writer closed before its buffer is served", func() {
+		// every element of the Range list either becomes a range or rejects the request:
+		// nothing is skipped, so the range list cannot come out empty (which would fall
+		// through to a multipart answer without parts)
+		for _, m := range mods {
+			g := G(m.f)
+			for _, in := range instrs(m.f) {
+				// the element of a range-over-slice loop: &list[i] with list from strings.Split
+				ia, ok := in.(*ssa.IndexAddr)
+				if !ok || !inLoop(ia.Block()) || !anyIn(w.backSlice(ia.X, flowOpt{}), func(v ssa.Value) bool { return isCallValue(v, "strings.Split") }) {
+					continue
+				}
+				idx, ok := ia.Index.(*ssa.BinOp)
+				if !ok || idx.Op != token.ADD {
+					continue // not the loop's own element access
+				}
+				nx := ssa.Instruction(idx) // the increment in the loop header: reaching it again starts the next iteration
+				isAppend := func(i ssa.Instruction) bool {
+					c, ok := i.(*ssa.Call)
+					if !ok {
+						return false
+					}
+					b, ok := c.Call.Value.(*ssa.Builtin)
+					return ok && b.Name() == "append"
+				}
+				p := g.PathTo([]ssa.Instruction{ia}, false, isAppend, func(i ssa.Instruction) bool { return i == nx })
+				r.Paths++
+				r.Decide("path", fmt.Sprintf("(*M/%s.Modifier).ModifyResponse: no element of the Range list is skipped", m.name), p == nil, "every iteration of the parse loop appends a range or leaves the function", "an element of the Range list can be skipped without yielding a range or an error: a header naming no range at all is answered 206 with an empty multipart body instead of 416", ia.Pos())
+			}
+		}
+
+		errorsReturnedRule(r, r.W.Fn("body", "Modifier.ModifyResponse"), false)
+		errorsReturnedRule(r, r.W.Fn("static", "Modifier.ModifyResponse"), false)
+
 		for _, m := range mods {
 			f := m.f
 			g := G(f)
